@@ -1104,12 +1104,10 @@ func (c ipamClient) AssignIP(ctx context.Context, args AssignIPArgs) error {
 		// in the KVPair.
 		_, err = c.blockReaderWriter.updateBlock(ctx, obj)
 		if err != nil {
-			if _, ok := err.(cerrors.ErrorResourceUpdateConflict); ok {
-				log.WithError(err).Debug("CAS error assigning IP - retry")
-				continue
-			}
-
-			log.WithError(err).Warningf("Update failed on block %s", block.CIDR.String())
+			// The block was not written, so undo the handle increment made above.  This must also be
+			// done before retrying after a CAS conflict: the retry increments the handle again (or
+			// fails, e.g. because the address has been taken meanwhile), and the handle would
+			// otherwise keep counting an address that was never assigned.
 			if args.HandleID != nil {
 				// Extend timeout for the cleanup, if needed.
 				cleanupCtx, cancel := contextForCleanup(ctx)
@@ -1118,6 +1116,12 @@ func (c ipamClient) AssignIP(ctx context.Context, args AssignIPArgs) error {
 				}
 				cancel()
 			}
+			if _, ok := err.(cerrors.ErrorResourceUpdateConflict); ok {
+				log.WithError(err).Debug("CAS error assigning IP - retry")
+				continue
+			}
+
+			log.WithError(err).Warningf("Update failed on block %s", block.CIDR.String())
 			return err
 		}
 		return nil
